@@ -276,6 +276,34 @@ def w_random_long(ctx, rng, i):
     ctx.bin("M", M)
 
 
+def w_hdd_extremes(ctx, rng, i):
+    """symbols with an extreme number of ON slots for every order up to 256: none, one, two, half, all but one and ALL of the M
+    slots (the saturated symbol is where a narrow counter would wrap), mixed within one record, in every container form.
+    hdd.post decides (one ON slot per symbol, among those that were ON; valid symbols unchanged)."""
+    M = int(MS[i % len(MS)])
+    counts = [0, 1, 2, M // 2, M - 1, M, M, 1]
+    rng.shuffle(counts)
+    nsym = int(rng.choice([1, 3, len(counts)]))
+    rows = np.zeros((nsym, M), np.uint8)
+    for r, c in enumerate(counts[:nsym]):
+        rows[r, rng.choice(M, min(int(c), M), replace=False)] = 1
+    if i % 7 == 0:
+        rows[:] = 1                                   # an all-ones record
+    s = rows.ravel()
+    form = FORMS[int(rng.integers(len(FORMS)))]
+    ctx.describe(M=M, on_counts=rows.sum(axis=1), form=form)
+    np.random.seed(int(rng.integers(2 ** 31)))
+    with core.quiet():
+        h = Pm.HDD(render(s, form), M)                # hdd.post decides
+        hb = Pm.HDD(s.astype(bool), M)
+    for out in (h, hb):
+        o = as_bits(out).reshape(nsym, M)
+        ctx.check("hdd.extremes", np.all(o.sum(axis=1) == 1) and np.all(o[rows.sum(axis=1) > 0] <= rows[rows.sum(axis=1) > 0]),
+                  f"HDD(M={M}) on symbols with {rows.sum(axis=1).tolist()} ON slots returned symbols with {o.sum(axis=1).tolist()} ON slots (or turned ON a slot that was OFF)")
+    ctx.case(("hddx", M, tuple(sorted(rows.sum(axis=1).tolist())), form), sample={"M": M, "on_counts": rows.sum(axis=1).tolist()} if i < 2 else None)
+    ctx.bin("hddx.M", M)
+
+
 def w_sdd(ctx, rng, i):
     import opticomlib.devices as dv
     sps = int(rng.choice([2, 3, 4, 5, 8, 16, 17, 32, 64]))
@@ -355,6 +383,11 @@ def w_sdd_two_grids(ctx, rng, i):
     ctx.case(("sddgrids", a, b, M))
 
 
+def FORM_TWINS():
+    import opticomlib.ppm as pp
+    return [(pp, ["PPM_ENCODER", "PPM_DECODER", "HDD", "SDD"])]
+
+
 WORKLOADS = [
     Workload("roundtrip_exhaustive", w_roundtrip_exhaustive, len(RT_INDEX), len(RT_INDEX), exhaustive=True, budget=600),
     Workload("hdd_exhaustive", w_hdd_exhaustive, lambda: 4 * len(hdd_scope("quick")), lambda: 4 * len(hdd_scope("thorough")), exhaustive=True, budget=900),
@@ -364,6 +397,7 @@ WORKLOADS = [
     Workload("dsp", w_dsp, 12, 400),
     Workload("repo_tests", lambda ctx, rng, i: core.run_repo_tests(ctx), 1, 1, budget=1800, tiers=("thorough",)),
     Workload("sdd_two_grids", w_sdd_two_grids, 60, 3000),
+    Workload("hdd_extremes", w_hdd_extremes, 160, 8000),
 ]
 
 
